@@ -333,6 +333,10 @@ func c14Program(r *RNG, graph bool) c14Prog {
 	sb.WriteString("func main() {\nfzero := 0.0\nnegZero := -1.0 * fzero\nprintln(negZero)\n")
 	p.model = append(p.model, "print new", "print ln F-0e0")
 	p.nprint = 1
+	// the negation of a variable that holds zero is negative zero too, at top level and inside containers
+	sb.WriteString("println(-fzero, 1/-fzero, []float64{-fzero, fzero - fzero})\n")
+	p.model = append(p.model, "print ln F-0e0 F-inf [ LS F-0e0 F+0e0 ]")
+	p.nprint++
 	tInt, tStr, tF := &pty{kind: "int"}, &pty{kind: "string"}, &pty{kind: "float64"}
 	sl := func(t *pty) *pty { return &pty{kind: "slice", elem: t} }
 	nobj := 0
